@@ -139,9 +139,8 @@ def intervalOverlapCheck(
         timeOverlapFlag = overlapTime >= timeThreshold
         overlapFlag = timeOverlapFlag
 
-    overlapFlag = (
-        overlapFlag or boundaryOverlapFlag or percentOverlapFlag or timeOverlapFlag
-    )
+    # Each threshold that was given has already narrowed overlapFlag
+    overlapFlag = overlapFlag or boundaryOverlapFlag
 
     return overlapFlag
 
